@@ -719,3 +719,452 @@ Proof.
     eapply keeps_trans; [eauto|apply set_attrs_keeps].
   - injection H as _ <-. now apply world_le_keeps.
 Qed.
+
+(* ------------------------------------------------------------------ re-creating at an occupied path (C15) *)
+Lemma write_cols_le : forall cols w f t w', write_cols w f t cols = Some w' -> world_le w w'.
+Proof.
+  induction cols as [|[c src] r IH]; simpl; intros w f t w' H.
+  - injection H as <-. apply world_le_refl.
+  - destruct src as [d|o].
+    + destruct (alloc w f (Dataset d)) as [w1 o] eqn:Ea.
+      destruct (bind w1 f t c (Hard o)) as [w2|] eqn:Eb; try discriminate.
+      eapply world_le_trans; [eapply alloc_le; eauto|]. eapply world_le_trans; [eapply bind_le; eauto|eauto].
+    + destruct (bind w f t c (Hard o)) as [w2|] eqn:Eb; try discriminate.
+      eapply world_le_trans; [eapply bind_le; eauto|eauto].
+Qed.
+
+Lemma write_tables_le : forall ts w f g w', write_tables w f g ts = Some w' -> world_le w w'.
+Proof.
+  induction ts as [|[n src] r IH]; simpl; intros w f g w' H.
+  - injection H as <-. apply world_le_refl.
+  - destruct src as [cols|o].
+    + destruct (alloc w f (Group [] [])) as [w1 t] eqn:Ea.
+      destruct (bind w1 f g n (Hard t)) as [w2|] eqn:Eb; try discriminate.
+      destruct (write_cols w2 f t cols) as [w3|] eqn:Ec; try discriminate.
+      eapply world_le_trans; [eapply alloc_le; eauto|]. eapply world_le_trans; [eapply bind_le; eauto|].
+      eapply world_le_trans; [eapply write_cols_le; eauto|eauto].
+    + destruct (bind w f g n (Hard o)) as [w2|] eqn:Eb; try discriminate.
+      eapply world_le_trans; [eapply bind_le; eauto|eauto].
+Qed.
+
+(** updating attributes changes no link, no object kind, no file: resolution is literally the same *)
+Lemma set_attrs_obj_links : forall w f o b f0 o0,
+  (file_exists (set_attrs w f o b) f0 = file_exists w f0) /\
+  match obj_at w f0 o0 with
+  | Some (Group a ls) => exists a', obj_at (set_attrs w f o b) f0 o0 = Some (Group a' ls)
+  | x => obj_at (set_attrs w f o b) f0 o0 = x
+  end.
+Proof.
+  intros w f o b f0 o0. unfold set_attrs.
+  destruct (obj_at w f o) as [[a ls|d]|] eqn:E.
+  2,3: split; auto; destruct (obj_at w f0 o0) as [[? ?|?]|]; eauto.
+  split.
+  - unfold file_exists, set_obj, obj_at in *. destruct (get_store w f) eqn:Es; try discriminate.
+    destruct (fid_dec f f0) as [<-|N]; [now rewrite get_set_same, Es|now rewrite get_set_other by auto].
+  - destruct (fid_dec f f0) as [<-|Nf]; [destruct (Nat.eq_dec o o0) as [<-|No]|].
+    + rewrite E. erewrite set_obj_at by eauto. eauto.
+    + assert (obj_at (set_obj w f o (Group (upd_attrs a b) ls)) f o0 = obj_at w f o0) as ->.
+      { unfold obj_at, set_obj in *. destruct (get_store w f) eqn:Es; try discriminate.
+        rewrite get_set_same. now rewrite nth_error_upd_other by auto. }
+      destruct (obj_at w f o0) as [[? ?|?]|]; eauto.
+    + assert (obj_at (set_obj w f o (Group (upd_attrs a b) ls)) f0 o0 = obj_at w f0 o0) as ->.
+      { unfold obj_at, set_obj in *. destruct (get_store w f) eqn:Es; try discriminate.
+        now rewrite get_set_other by auto. }
+      destruct (obj_at w f0 o0) as [[? ?|?]|]; eauto.
+Qed.
+
+Lemma walk_set_attrs : forall k w f o b x f0 o0 p,
+  walk k (set_attrs w f o b) x f0 o0 p = walk k w x f0 o0 p.
+Proof.
+  induction k; simpl; intros; auto. destruct p as [|n rest]; auto.
+  destruct (set_attrs_obj_links w f o b f0 o0) as [_ Ho].
+  destruct (obj_at w f0 o0) as [[a ls|d]|]; [destruct Ho as (a' & ->)|rewrite Ho; auto|rewrite Ho; auto].
+  destruct (assoc n ls) as [l|]; auto. destruct l; auto.
+  destruct (set_attrs_obj_links w f o b f1 0) as [-> _]. destruct (file_exists w f1); auto.
+Qed.
+
+Lemma create_group_new : forall w f p w' f1 g par n w1 fl f1' gpar xg,
+  create_group w f p = (Ok, w', (f1, g)) -> split_last p = Some (par, n) ->
+  ensure w f 0 par = Some (w1, fl, f1', gpar) -> obj_at w1 f1' gpar = Some xg ->
+  obj_at w' f1' g = Some (Group [] []).
+Proof.
+  unfold create_group; intros w f p w' f1 g par n w1 fl f1' gpar xg H Hs He Eg.
+  rewrite Hs, He in H.
+  destruct (lookup_link w1 f1' gpar n) eqn:El.
+  { exfalso. injection H as Herr _ _ _. eapply exists_err_not_ok; eauto. discriminate. }
+  destruct (alloc w1 f1' (Group [] [])) as [w2 o] eqn:Ea.
+  destruct (bind w2 f1' gpar n (Hard o)) as [w3|] eqn:Eb; try discriminate.
+  injection H as Hw Hf Hg. subst w3 f1' o.
+  destruct (alloc_lookup_frame _ _ _ _ _ _ n _ Ea Eg) as (_ & A2 & _).
+  eapply bind_obj_other; eauto.
+  pose proof Eg as Eg'. unfold obj_at in Eg'. destruct (get_store w1 f1) as [st|] eqn:Es; try discriminate.
+  eapply alloc_obj; eauto.
+Qed.
+
+(** recreate_replaces: re-creating (append mode) at an OCCUPIED non-root path whose parent traversal does not
+    pass through the occupied link itself: the name is rebound to a NEW group that holds exactly the tables
+    of the new collection (nothing of the old one), and every traversal that did not pass through that link
+    resolves exactly as before *)
+Theorem recreate_replaces : forall w f p spec w' par n fp gp e0 w0 t0,
+  file_exists w f = true -> create_group w f p = (e0, w0, t0) -> e0 = EValue ->
+  split_last p = Some (par, n) -> resolve w f par = Found fp gp ->
+  walk_av (fp, gp, n) FUEL w false f 0 par = Found fp gp ->
+  create w f p false spec = (Ok, w') ->
+  exists g, child w' fp gp n = Some g /\
+    (forall m src, In (m, src) (cs_tables spec) -> table_ok w' fp g m src) /\
+    (forall m l, lookup_link w' fp g m = Some l -> In m (map fst (cs_tables spec))) /\
+    (forall k x f0 o0 q f1 o1, walk_av (fp, gp, n) k w x f0 o0 q = Found f1 o1 -> walk k w' x f0 o0 q = Found f1 o1).
+Proof.
+  intros w f p spec w' par n fp gp e0 w0 t0 Hex Hcg -> Hs Erp Hav H.
+  unfold create in H. rewrite Hex in H. simpl orb in H. cbv iota in H.
+  destruct p as [|c r]; [discriminate|]. rewrite Hcg in H.
+  destruct (del_link w f (c :: r)) as [ed wd] eqn:Ed. destruct ed; try discriminate.
+  destruct (del_link_ok _ _ _ _ Ed) as (par' & n' & fp' & gp' & Hs' & Erp' & U & Hnone).
+  rewrite Hs in Hs'. injection Hs' as <- <-. rewrite Erp in Erp'. injection Erp' as <- <-.
+  destruct (create_group wd f (c :: r)) as [[e1 w1] [f1 g]] eqn:Ecg2. destruct e1; try discriminate.
+  destruct (write_tables w1 f1 g (cs_tables spec)) as [w2|] eqn:Ew; try discriminate.
+  injection H as <-.
+  destruct (create_group_ok _ _ _ _ _ _ Ecg2) as (Ld & par2 & n2 & we & fl & gpar & Hs2 & He & L1 & Hch).
+  rewrite Hs in Hs2. injection Hs2 as <- <-.
+  (* the parent reached by ensure is the parent whose member was unlinked *)
+  assert (resolve wd f par = Found fp gp) as Erd by (unfold resolve; eapply walk_av_unlinked; eauto).
+  assert (f1 = fp /\ gpar = gp) as [-> ->].
+  { unfold ensure in He. destruct (ensure_gen_resolves _ _ _ _ _ _ _ _ _ _ He) as [j Hj].
+    pose proof (walk_found_mono _ _ _ _ _ _ _ _ _ (ensure_gen_le _ _ _ _ _ _ _ _ _ _ _ He) Erd) as Hr.
+    assert (Found f1 gpar = Found fp gp) as E.
+    { eapply walk_found_det; [exact Hj|exact Hr|eauto|eauto]. }
+    now injection E as -> ->. }
+  assert (exists xg, obj_at we fp gp = Some xg) as [xg Exg].
+  { destruct U as (a & ls & Eg & ->).
+    assert (obj_at (set_obj w fp gp (Group a (remove_key n ls))) fp gp = Some (Group a (remove_key n ls))) as E1
+      by (eapply set_obj_at; eauto).
+    unfold ensure in He.
+    destruct (world_le_obj _ _ _ _ _ (ensure_gen_le _ _ _ _ _ _ _ _ _ _ _ He) E1) as (y & Ey & _). eauto. }
+  destruct (create_group_frame _ _ _ _ _ _ _ _ _ _ _ _ _ Ecg2 Hs He Exg) as (_ & Ng & _).
+  pose proof (create_group_new _ _ _ _ _ _ _ _ _ _ _ _ _ Ecg2 Hs He Exg) as Enew.
+  destruct (write_tables_spec _ _ _ _ _ Ew) as (K2 & HT).
+  exists g. split; [|split; [|split]].
+  - eapply keeps_child; [apply set_attrs_keeps|]. eapply keeps_child; eauto.
+  - intros m src Hin. eapply table_ok_keeps; [apply set_attrs_keeps|eauto].
+  - intros m l Hl. rewrite set_attrs_lookup in Hl.
+    destruct (in_dec S.string_dec m (map fst (cs_tables spec))) as [Hin|Hnot]; auto. exfalso.
+    rewrite (write_tables_target_frame _ _ _ _ _ m _ Ew Enew Hnot) in Hl.
+    unfold lookup_link in Hl. rewrite Enew in Hl. discriminate.
+  - intros k x f0 o0 q f1 o1 Hq. rewrite walk_set_attrs.
+    eapply walk_found_mono; [eapply write_tables_le; eauto|].
+    eapply walk_found_mono; [exact Ld|]. eapply walk_av_unlinked; eauto.
+Qed.
+
+Lemma ex_recreate :
+  let w := run world0 [OCreate FA sx false (tiny 1); OCreate FA sxy false (tiny 2); OCreate FA ["z"%string] false (tiny 3)] in
+  let r := create w FA sx false (tiny 9) in
+  fst (fst (create_group w FA sx)) = EValue /\ fst r = Ok /\
+  is_cooler (snd r) FA sx = TTrue /\ is_cooler w FA sxy = TTrue /\ is_cooler (snd r) FA sxy = TFalse /\
+  walk_av (FA, 0%nat, "x"%string) FUEL w false FA 0 [] = Found FA 0%nat /\
+  resolve (snd r) FA ["z"%string] = resolve w FA ["z"%string].
+Proof. vm_compute. repeat split; reflexivity. Qed.
+
+(* ------------------------------------------------------------------ attributes through the appends (recognition) *)
+Lemma upd_attrs_other : forall b a k, ~ In k (map fst b) -> assoc k (upd_attrs a b) = assoc k a.
+Proof.
+  unfold upd_attrs. induction b as [|[k0 v0] r IH]; simpl; intros a k Hn; auto.
+  rewrite IH by tauto. apply assoc_ins_other. intro; subst; apply Hn; auto.
+Qed.
+
+Lemma upd_attrs_assoc : forall b a k v, NoDup (map fst b) -> In (k, v) b -> assoc k (upd_attrs a b) = Some v.
+Proof.
+  unfold upd_attrs. induction b as [|[k0 v0] r IH]; simpl; intros a k v Hnd Hin; [tauto|].
+  inversion Hnd as [|? ? Hnot Hnd']; subst. destruct Hin as [E|Hin].
+  - injection E as -> ->. fold (upd_attrs (ins_sorted k v a) r). rewrite upd_attrs_other by auto. apply assoc_ins_same.
+  - now apply IH.
+Qed.
+
+Definition attrs_kept (w w' : world) : Prop :=
+  forall f o x, obj_at w f o = Some x -> exists y, obj_at w' f o = Some y /\ attrs_of y = attrs_of x.
+
+Lemma world_le_attrs : forall w w', world_le w w' -> attrs_kept w w'.
+Proof.
+  intros w w' H f o x E. destruct (world_le_obj _ _ _ _ _ H E) as (y & Ey & Ly). exists y. split; auto.
+  destruct x, y; simpl in *; try tauto. now destruct Ly as [-> _].
+Qed.
+
+Lemma attrs_kept_trans : forall a b c, attrs_kept a b -> attrs_kept b c -> attrs_kept a c.
+Proof.
+  intros a b c H1 H2 f o x E. destruct (H1 _ _ _ E) as (y & Ey & Ay). destruct (H2 _ _ _ Ey) as (z & Ez & Az).
+  exists z. split; auto. congruence.
+Qed.
+
+Lemma create_group_fresh : forall w f p w' f1 g, create_group w f p = (Ok, w', (f1, g)) -> obj_at w f1 g = None.
+Proof.
+  unfold create_group; intros w f p w' f1 g H.
+  destruct (split_last p) as [[par n]|]; try discriminate.
+  destruct (ensure w f 0 par) as [[[[w1 fl] f1'] gpar]|] eqn:E; try discriminate.
+  destruct (lookup_link w1 f1' gpar n) eqn:El.
+  { exfalso. injection H as He _ _ _. eapply exists_err_not_ok; eauto. discriminate. }
+  destruct (alloc w1 f1' (Group [] [])) as [w2 o] eqn:Ea.
+  destruct (bind w2 f1' gpar n (Hard o)) as [w3|] eqn:Eb; try discriminate.
+  injection H as Hw Hf Hg. subst w3 f1' o.
+  destruct (obj_at w f1 g) as [x|] eqn:Ex; auto. exfalso.
+  destruct (world_le_obj _ _ _ _ _ (ensure_le _ _ _ _ _ _ _ _ E) Ex) as (y & Ey & _).
+  destruct (alloc_lookup_frame _ _ _ _ _ _ n _ Ea Ey) as (_ & A2 & _). congruence.
+Qed.
+
+(** appending a cell keeps the attributes of every existing object and tags the new group with its own *)
+Lemma create_cell_attrs : forall w f a0 ls0 name sp w' gc g,
+  file_exists w f = true -> obj_at w f 0 = Some (Group a0 ls0) -> cell_fresh w f ls0 name ->
+  create w f ["cells"%string; name] false sp = (Ok, w') ->
+  child w' f 0 "cells"%string = Some gc -> child w' f gc name = Some g ->
+  (exists t src, In (t, src) (cs_tables sp)) ->
+  attrs_kept w w' /\
+  forall k v, NoDup (map fst (cs_attrs sp)) -> In (k, v) (cs_attrs sp) ->
+    exists x, obj_at w' f g = Some x /\ assoc k (attrs_of x) = Some v.
+Proof.
+  intros w f a0 ls0 name sp w' gc g Hex E0 Hfresh H Hgc Hg (t0 & src0 & Ht0).
+  destruct (create_cell_spec _ _ _ _ _ _ _ Hex E0 Hfresh H) as (K & gc' & g' & Hc' & Hg' & _ & HT).
+  rewrite Hgc in Hc'. injection Hc' as <-. rewrite Hg in Hg'. injection Hg' as <-.
+  pose proof H as H0. unfold create in H. rewrite Hex in H. simpl orb in H. cbv iota in H.
+  destruct (create_group w f ["cells"%string; name]) as [[e w1] [f1 g1]] eqn:Ecg.
+  destruct e; try discriminate.
+  2:{ exfalso. unfold del_link in H. simpl split_last in H. cbv beta iota in H.
+      destruct Hfresh as [Hn|(g0 & ac & lsc & Hs & Eg & Hnone)].
+      - rewrite (resolve_cells_none _ _ _ _ E0 Hn) in H. discriminate.
+      - rewrite (resolve_cells_hard _ _ _ _ _ E0 Hs) in H. rewrite Eg, Hnone in H. discriminate. }
+  destruct (create_group_ok _ _ _ _ _ _ Ecg) as (L & par & n & we & fl & gpar & Hs & He & L1 & Hch).
+  simpl in Hs. injection Hs as <- <-.
+  assert (assoc "cells"%string ls0 = None \/ exists g0, assoc "cells"%string ls0 = Some (Hard g0)) as Hc.
+  { destruct Hfresh as [?|(g0 & ? & ? & ? & _)]; eauto. }
+  destruct (ensure_cells _ _ _ _ _ _ _ _ E0 Hc He) as (-> & Hcells & _).
+  destruct (write_tables w1 f g1 (cs_tables sp)) as [w2|] eqn:Ew; [|discriminate].
+  injection H as <-.
+  pose proof (write_tables_le _ _ _ _ _ Ew) as L2.
+  assert (keeps w1 (set_attrs w2 f g1 (cs_attrs sp))) as K13.
+  { eapply keeps_trans; [apply world_le_keeps; eauto|apply set_attrs_keeps]. }
+  (* the two names denote the group made by create_group *)
+  assert (gc = gpar) as ->.
+  { pose proof (keeps_child _ _ _ _ _ _ (keeps_trans _ _ _ (world_le_keeps _ _ L1) K13) Hcells). congruence. }
+  assert (g = g1) as -> by (pose proof (keeps_child _ _ _ _ _ _ K13 Hch); congruence).
+  pose proof (create_group_fresh _ _ _ _ _ _ Ecg) as Hfr.
+  (* the object of the new group before its attributes are set *)
+  pose proof (HT _ _ Ht0) as Tok.
+  assert (exists a ls, obj_at w2 f g1 = Some (Group a ls)) as (a & ls & Eg2).
+  { assert (exists l, lookup_link (set_attrs w2 f g1 (cs_attrs sp)) f g1 t0 = Some l) as [l Hl].
+    { destruct src0; simpl in Tok; [destruct Tok as (t & Tc & _)|]; unfold child in *;
+        destruct (lookup_link (set_attrs w2 f g1 (cs_attrs sp)) f g1 t0); try discriminate; eauto. }
+    rewrite set_attrs_lookup in Hl. unfold lookup_link in Hl.
+    destruct (obj_at w2 f g1) as [[a ls|]|]; try discriminate; eauto. }
+  split.
+  - intros f0 o0 x Ex.
+    destruct (world_le_attrs _ _ (world_le_trans _ _ _ L L2) _ _ _ Ex) as (y & Ey & Ay).
+    destruct (fid_dec f0 f) as [->|Nf]; [destruct (Nat.eq_dec o0 g1) as [->|No]|].
+    + congruence.
+    + exists y. split; auto. unfold set_attrs. rewrite Eg2.
+      unfold obj_at, set_obj in *. destruct (get_store w2 f) eqn:Es; try discriminate.
+      rewrite get_set_same. now rewrite nth_error_upd_other by auto.
+    + exists y. split; auto. unfold set_attrs. rewrite Eg2.
+      unfold obj_at, set_obj in *. destruct (get_store w2 f) eqn:Es; try discriminate.
+      now rewrite get_set_other by auto.
+  - intros k v Hnd Hin. unfold set_attrs. rewrite Eg2. erewrite set_obj_at by eauto.
+    eexists; split; eauto. simpl. now apply upd_attrs_assoc.
+Qed.
+
+Definition cell_tagged (c : cell) : Prop :=
+  NoDup (map fst (c_attrs c)) /\ In ("format"%string, AStr MAGIC) (c_attrs c).
+
+Theorem append_cells_coolers : forall cells w f rc rb o1 o2 o3 done w',
+  root_ok w f rc rb o1 o2 o3 -> cells_state w f done ->
+  NoDup (done ++ map c_name cells) -> Forall cell_tagged cells ->
+  append_cells w f cells = (Ok, w') ->
+  attrs_kept w w' /\
+  forall c, In c cells -> forall gc g, child w' f 0 "cells"%string = Some gc -> child w' f gc (c_name c) = Some g ->
+    is_cooler_at w' f g = true.
+Proof.
+  induction cells as [|c r IH]; intros w f rc rb o1 o2 o3 done w' HR HS Hnd Htag H.
+  - simpl in H. injection H as <-. split; [intros ? ? ? E; eauto|intros ? []].
+  - inversion Htag as [|? ? Hc Hr]; subst.
+    pose proof H as Hall.
+    unfold append_cells in H. simpl in H. fold append_cells in H.
+    rewrite (cell_spec_root _ _ _ _ _ _ _ c HR) in H.
+    set (sp := mkSpec _ _) in H.
+    destruct (create w f (cell_path c) false sp) as [e w1] eqn:Ec.
+    destruct e; try discriminate.
+    destruct HS as (a0 & ls0 & E0 & Hst).
+    assert (cell_fresh w f ls0 (c_name c)) as Hfresh.
+    { destruct Hst as [[-> Hn]|(gc & ac & lsc & Hs & Eg & Hkeys)]; [left; auto|right].
+      exists gc, ac, lsc. repeat split; auto.
+      destruct (assoc (c_name c) lsc) eqn:En; auto. exfalso.
+      apply Hkeys in En. simpl in Hnd. apply NoDup_remove_2 in Hnd. apply Hnd.
+      apply in_or_app. auto. }
+    unfold cell_path in Ec.
+    pose proof (r_exists _ _ _ _ _ _ _ HR) as Hex.
+    destruct (create_cell_spec _ _ _ _ _ _ _ Hex E0 Hfresh Ec) as (K1 & gc1 & g1 & Hcells & Hcell & Hold & HT).
+    pose proof (create_cell_keys _ _ _ _ _ _ _ gc1 Hex E0 Hfresh Ec Hcells) as Hkeys1.
+    assert (exists t src, In (t, src) (cs_tables sp)) as Hne by (eexists; eexists; simpl; left; reflexivity).
+    destruct (create_cell_attrs _ _ _ _ _ _ _ gc1 g1 Hex E0 Hfresh Ec Hcells Hcell Hne) as (A1 & Hfmt).
+    assert (cells_state w1 f (done ++ [c_name c])) as HS1.
+    { pose proof Hcells as Hc1. pose proof Hcell as Hc2. unfold child, lookup_link in Hc1, Hc2.
+      destruct (obj_at w1 f 0) as [[a1 ls1|]|] eqn:E1; try discriminate.
+      destruct (assoc "cells"%string ls1) as [[gc'| |]|] eqn:Ea1; try discriminate. injection Hc1 as ->.
+      destruct (obj_at w1 f gc1) as [[ac1 lsc1|]|] eqn:Eg1; try discriminate.
+      exists a1, ls1. split; auto. right. exists gc1, ac1, lsc1. repeat split; auto.
+      intros m l Hm.
+      assert (lookup_link w1 f gc1 m = Some l) as Hl by (unfold lookup_link; now rewrite Eg1).
+      destruct (Hkeys1 m l Hl) as [->|(g0 & Hg0 & Hl0)]; [apply in_or_app; simpl; auto|].
+      apply in_or_app. left.
+      destruct Hst as [[_ Hn]|(gc0 & ac & lsc & Hs & Eg & Hk)]; [congruence|].
+      rewrite Hs in Hg0. injection Hg0 as <-. unfold lookup_link in Hl0. rewrite Eg in Hl0. eauto. }
+    assert (NoDup ((done ++ [c_name c]) ++ map c_name r)) as Hnd1 by (rewrite <- app_assoc; exact Hnd).
+    pose proof (root_ok_keeps _ _ _ _ _ _ _ _ K1 HR) as HR1.
+    destruct (IH w1 f rc rb o1 o2 o3 (done ++ [c_name c]) w' HR1 HS1 Hnd1 Hr H) as (A2 & Hrest).
+    destruct (append_cells_spec _ _ _ _ _ _ _ _ _ _ HR1 HS1 Hnd1 H) as (K2 & _ & _).
+    split; [eapply attrs_kept_trans; eauto|].
+    intros c' [<-|Hin] gc g Hgc Hg; [|eauto].
+    pose proof (keeps_child _ _ _ _ _ _ K2 Hcells) as Hgc'. rewrite Hgc in Hgc'. injection Hgc' as ->.
+    pose proof (keeps_child _ _ _ _ _ _ K2 Hcell) as Hg'. rewrite Hg in Hg'. injection Hg' as ->.
+    destruct Hc as [Hnd0 Hf0]. destruct (Hfmt _ _ Hnd0 Hf0) as (x & Ex & Ax).
+    destruct (A2 _ _ _ Ex) as (y & Ey & Ay).
+    unfold is_cooler_at. rewrite Ey. unfold is_cooler_obj. rewrite Ay, Ax. reflexivity.
+Qed.
+
+(* ------------------------------------------------------------------ recognition of the single-cell file *)
+Lemma create_scool_unfold : forall w f rchroms rbins rattrs cells w' dc ds de,
+  create_scool w f true rchroms rbins rattrs cells = (Ok, w') ->
+  In ("chrom"%string, dc) rbins -> In ("start"%string, ds) rbins -> In ("end"%string, de) rbins ->
+  exists w3 rc rb o1 o2 o3,
+    root_ok w3 f rc rb o1 o2 o3 /\ cells_state w3 f [] /\
+    append_cells w3 f (sort_cells cells) = (Ok, w') /\
+    exists a ls, obj_at w3 f 0 = Some (Group (upd_attrs a rattrs) ls).
+Proof.
+  intros w f rchroms rbins rattrs cells w' dc ds de H Hc Hs He.
+  unfold create_scool in H. simpl orb in H. cbv iota in H.
+  set (w0 := set_store w f (Some empty_store)) in *.
+  assert (get_store w0 f = Some empty_store) as Es0 by (unfold w0; apply get_set_same).
+  rewrite (del_nothing_on_empty _ _ _ Es0) in H.
+  set (ts := [("chroms"%string, Table _); ("bins"%string, Table _)]) in H.
+  destruct (write_tables w0 f 0 ts) as [w2|] eqn:Ew; [|discriminate].
+  destruct (write_tables_spec _ _ _ _ _ Ew) as (K2 & HT).
+  pose proof (HT "chroms"%string _ (or_introl eq_refl)) as T1. simpl in T1.
+  pose proof (HT "bins"%string _ (or_intror (or_introl eq_refl))) as T2. simpl in T2.
+  destruct T1 as (rc & Hrc & HFc & _). destruct T2 as (rb & Hrb & HFb & _).
+  destruct (ds_child _ _ _ _ _ (HFb _ _ (in_fresh _ _ _ Hc))) as (o1 & Ho1).
+  destruct (ds_child _ _ _ _ _ (HFb _ _ (in_fresh _ _ _ Hs))) as (o2 & Ho2).
+  destruct (ds_child _ _ _ _ _ (HFb _ _ (in_fresh _ _ _ He))) as (o3 & Ho3).
+  set (w3 := set_attrs w2 f 0 rattrs) in *.
+  assert (keeps w2 w3) as K3 by apply set_attrs_keeps.
+  assert (obj_at w0 f 0 = Some (Group [] [])) as E00 by (unfold obj_at; now rewrite Es0).
+  assert (exists a ls, obj_at w2 f 0 = Some (Group a ls)) as (a2 & ls2 & E2).
+  { unfold child, lookup_link in Hrc. destruct (obj_at w2 f 0) as [[a ls|]|]; try discriminate; eauto. }
+  assert (obj_at w3 f 0 = Some (Group (upd_attrs a2 rattrs) ls2)) as E3.
+  { unfold w3, set_attrs. rewrite E2. eapply set_obj_at; eauto. }
+  assert (file_exists w3 f = true) as Hex3.
+  { unfold file_exists, obj_at in *. destruct (get_store w3 f); auto; discriminate. }
+  assert (root_ok w3 f rc rb o1 o2 o3) as HR by (constructor; eauto using keeps_child).
+  exists w3, rc, rb, o1, o2, o3. split; auto. split; [|split; eauto].
+  assert (lookup_link w3 f 0 "cells"%string = None) as Hn.
+  { unfold w3. rewrite set_attrs_lookup.
+    rewrite (write_tables_target_frame _ _ _ _ _ "cells"%string _ Ew E00).
+    - unfold lookup_link. now rewrite E00.
+    - simpl. intros [E|[E|[]]]; discriminate. }
+  unfold lookup_link in Hn. rewrite E3 in Hn. exists (upd_attrs a2 rattrs), ls2. split; auto.
+Qed.
+
+Lemma lookup_mem_keys : forall w f o k l, lookup_link w f o k = Some l -> mem_str k (keys_of w f o) = true.
+Proof.
+  unfold lookup_link, keys_of, mem_str; intros w f o k l H.
+  destruct (obj_at w f o) as [[a ls|]|]; try discriminate.
+  apply existsb_exists. exists k. split; [|apply S.eqb_refl].
+  apply in_map_iff. exists (k, l). split; auto. now apply assoc_in.
+Qed.
+
+Lemma in_keys_assoc : forall X k (l : list (string * X)), In k (map fst l) -> exists v, assoc k l = Some v.
+Proof.
+  induction l as [|[m y] r IH]; simpl; intros H; [tauto|].
+  destruct (S.eqb k m) eqn:E; eauto. destruct H as [H|H]; [subst; rewrite S.eqb_refl in E; discriminate|auto].
+Qed.
+
+Lemma child_lookup : forall w f g n o, child w f g n = Some o -> lookup_link w f g n = Some (Hard o).
+Proof. unfold child; intros. destruct (lookup_link w f g n) as [[?| |]|]; try discriminate. congruence. Qed.
+
+(** recognition: the file written by create_scool (mode w, at least one cell, every cell tagged as a cooler,
+    the root tagged with the single-cell marker) is recognised as a single-cell file *)
+Theorem create_scool_recognised : forall w f rchroms rbins rattrs cells w' dc ds de,
+  create_scool w f true rchroms rbins rattrs cells = (Ok, w') ->
+  NoDup (map c_name cells) -> cells <> [] -> Forall cell_tagged cells ->
+  In ("chrom"%string, dc) rbins -> In ("start"%string, ds) rbins -> In ("end"%string, de) rbins ->
+  NoDup (map fst rattrs) -> In ("format"%string, AStr MAGIC_SCOOL) rattrs ->
+  is_scool_file w' f = Some true.
+Proof.
+  intros w f rchroms rbins rattrs cells w' dc ds de H Hnd Hne Htag Hc Hs He Hnda Hfmt.
+  destruct (create_scool_unfold _ _ _ _ _ _ _ _ _ _ H Hc Hs He) as (w3 & rc & rb & o1 & o2 & o3 & HR & HS & Happ & a3 & ls3 & E3).
+  pose proof (sort_cells_perm cells) as Hperm.
+  assert (NoDup ([] ++ map c_name (sort_cells cells))) as Hnd'.
+  { simpl. eapply Permutation_NoDup; [|exact Hnd]. apply Permutation_map. now apply Permutation_sym. }
+  assert (Forall cell_tagged (sort_cells cells)) as Htag'.
+  { rewrite Forall_forall in *. intros c Hin. apply Htag. eapply Permutation_in; eauto. }
+  destruct (append_cells_spec _ _ _ _ _ _ _ _ _ _ HR HS Hnd' Happ) as (K4 & Hcells & HS4).
+  destruct (append_cells_coolers _ _ _ _ _ _ _ _ _ _ HR HS Hnd' Htag' Happ) as (A4 & Hcool).
+  pose proof (root_ok_keeps _ _ _ _ _ _ _ _ K4 HR) as HR'.
+  simpl app in HS4.
+  (* some cell exists *)
+  destruct (sort_cells cells) as [|c0 rest] eqn:Esort.
+  { exfalso. apply Hne. apply Permutation_nil. now apply Permutation_sym. }
+  destruct HS4 as (a0 & ls0 & E0 & [[Habs _]|(gc & ac & lsc & Hsc & Egc & Hkeys)]); [discriminate|].
+  unfold is_scool_file.
+  rewrite (r_exists _ _ _ _ _ _ _ HR'). simpl negb. cbv iota.
+  (* the marker *)
+  destruct (A4 _ _ _ E3) as (y & Ey & Ay).
+  assert (has_format w' f 0 MAGIC_SCOOL = true) as ->.
+  { unfold has_format. rewrite Ey, Ay. simpl. rewrite (upd_attrs_assoc _ _ _ _ Hnda Hfmt). reflexivity. }
+  simpl negb. cbv iota.
+  rewrite (lookup_mem_keys _ _ _ _ _ (child_lookup _ _ _ _ _ (r_chroms _ _ _ _ _ _ _ HR'))).
+  rewrite (lookup_mem_keys _ _ _ _ _ (child_lookup _ _ _ _ _ (r_bins _ _ _ _ _ _ _ HR'))).
+  assert (lookup_link w' f 0 "cells"%string = Some (Hard gc)) as Hlc by (unfold lookup_link; now rewrite E0).
+  rewrite (lookup_mem_keys _ _ _ _ _ Hlc). simpl negb. cbv iota.
+  unfold follow_name at 1. rewrite Hlc. simpl follow. cbv iota.
+  (* every member of /cells is a tagged cell *)
+  assert (forall k, In k (keys_of w' f gc) ->
+            match follow_name w' f gc k with Some (f1, o1) => is_cooler_at w' f1 o1 | None => false end = true) as Hall.
+  { intros k Hk. unfold keys_of in Hk. rewrite Egc in Hk.
+    destruct (in_keys_assoc _ _ _ Hk) as (l & Hl). pose proof (Hkeys _ _ Hl) as Hin.
+    apply in_map_iff in Hin. destruct Hin as (c & <- & Hc0).
+    destruct (Hcells c Hc0) as (gc' & g & Hg1 & Hg2 & _).
+    assert (gc' = gc) as -> by (apply child_lookup in Hg1; rewrite Hlc in Hg1; congruence).
+    unfold follow_name. rewrite (child_lookup _ _ _ _ _ Hg2). simpl. eapply Hcool; eauto. }
+  destruct (keys_of w' f gc) as [|k0 ks] eqn:Ek.
+  - exfalso. destruct (Hcells c0 (or_introl eq_refl)) as (gc' & g & Hg1 & Hg2 & _).
+    assert (gc' = gc) as -> by (apply child_lookup in Hg1; rewrite Hlc in Hg1; congruence).
+    pose proof (lookup_mem_keys _ _ _ _ _ (child_lookup _ _ _ _ _ Hg2)) as Hm. rewrite Ek in Hm. discriminate.
+  - f_equal. apply forallb_forall. intros k Hk. apply Hall. exact Hk.
+Qed.
+
+(** ... and a file whose root does not carry the marker is not *)
+Theorem not_scool_without_marker : forall w f, file_exists w f = true ->
+  has_format w f 0 MAGIC_SCOOL = false -> is_scool_file w f = Some false.
+Proof. intros w f Hex Hf. unfold is_scool_file. now rewrite Hex, Hf. Qed.
+
+(** listing, one direction in general: on the file written by create_scool, whenever list_scool_cells returns
+    (well-formed file without external links), every given cell is listed under /cells/<name> *)
+Theorem create_scool_cells_listed : forall w f rchroms rbins rattrs cells w' dc ds de L,
+  create_scool w f true rchroms rbins rattrs cells = (Ok, w') ->
+  NoDup (map c_name cells) -> Forall cell_tagged cells ->
+  In ("chrom"%string, dc) rbins -> In ("start"%string, ds) rbins -> In ("end"%string, de) rbins ->
+  no_ext w' f -> nodup_keys w' f -> list_scool_cells w' f = (Ok, L) ->
+  forall c, In c cells -> In (cell_path c) L.
+Proof.
+  intros w f rchroms rbins rattrs cells w' dc ds de L H Hnd Htag Hc Hs He Hne Hnk HL c Hin.
+  destruct (create_scool_unfold _ _ _ _ _ _ _ _ _ _ H Hc Hs He) as (w3 & rc & rb & o1 & o2 & o3 & HR & HS & Happ & _).
+  pose proof (sort_cells_perm cells) as Hperm.
+  assert (NoDup ([] ++ map c_name (sort_cells cells))) as Hnd'.
+  { simpl. eapply Permutation_NoDup; [|exact Hnd]. apply Permutation_map. now apply Permutation_sym. }
+  assert (Forall cell_tagged (sort_cells cells)) as Htag'.
+  { rewrite Forall_forall in *. intros c' Hin'. apply Htag. eapply Permutation_in; eauto. }
+  assert (In c (sort_cells cells)) as Hin' by (eapply Permutation_in; [apply Permutation_sym; exact Hperm|auto]).
+  destruct (append_cells_spec _ _ _ _ _ _ _ _ _ _ HR HS Hnd' Happ) as (_ & Hcells & _).
+  destruct (append_cells_coolers _ _ _ _ _ _ _ _ _ _ HR HS Hnd' Htag' Happ) as (_ & Hcool).
+  destruct (Hcells c Hin') as (gc & g & Hg1 & Hg2 & _).
+  unfold list_scool_cells in HL. destruct (is_scool_file w' f) as [[|]|]; try discriminate.
+  destruct (list_coolers w' f) as [e L0] eqn:EL. destruct e; try discriminate. injection HL as <-.
+  apply filter_In. split; [|reflexivity].
+  apply (listing_exact _ _ _ Hne Hnk EL). exists g. split; [|eapply Hcool; eauto].
+  unfold cell_path. eapply resolves_step; [apply child_lookup; exact Hg1|reflexivity|].
+  eapply resolves_step; [apply child_lookup; exact Hg2|reflexivity|apply resolves_nil].
+Qed.
